@@ -166,7 +166,11 @@ func (i *interpreter) block(pred func() bool, what string) {
 		}
 		c := 0
 		if len(cands) > 1 {
-			c = i.pm.choose(len(cands), "sched@block")
+			if i.pm.cfg.BlockChoices {
+				c = i.pm.choose(len(cands), "sched@block")
+			} else {
+				c = i.roundRobin(me, cands)
+			}
 		}
 		i.switchTo(me, cands[c])
 		me.blocked = nil
@@ -197,7 +201,11 @@ func (i *interpreter) threadExit(t *thread) {
 	}
 	c := 0
 	if len(rs) > 1 {
-		c = i.pm.choose(len(rs), "sched@exit")
+		if i.pm.cfg.BlockChoices {
+			c = i.pm.choose(len(rs), "sched@exit")
+		} else {
+			c = i.roundRobin(t, rs)
+		}
 	}
 	i.cur = rs[c]
 	rs[c].wake <- struct{}{}
@@ -219,7 +227,11 @@ func (i *interpreter) quiesce() int {
 		}
 		c := 0
 		if len(cands) > 1 {
-			c = i.pm.choose(len(cands), "sched@quiesce")
+			if i.pm.cfg.BlockChoices {
+				c = i.pm.choose(len(cands), "sched@quiesce")
+			} else {
+				c = i.roundRobin(me, cands)
+			}
 		}
 		i.switchTo(me, cands[c])
 	}
@@ -313,7 +325,6 @@ func (i *interpreter) chanClose(fr *frame, ch value, pos token.Pos) {
 		panic(runtimePanic{"close of closed channel at " + fr.pos(pos)})
 	}
 	c.closed = true
-	i.yieldPoint("close")
 }
 
 func (i *interpreter) selectOp(fr *frame, instr *ssa.Select) value {
@@ -437,7 +448,6 @@ func (i *interpreter) unlock(fr *frame, p *value) {
 		panic(runtimePanic{"sync: unlock of unlocked mutex at " + fr.pos(token.NoPos)})
 	}
 	m.locked = false
-	i.yieldPoint("unlock")
 }
 
 func (i *interpreter) rlock(fr *frame, p *value) {
@@ -454,4 +464,19 @@ func (i *interpreter) runlock(fr *frame, p *value) {
 	}
 	m.readers--
 	i.yieldPoint("runlock")
+}
+
+// roundRobin picks the runnable thread with the next higher id after me.
+func (i *interpreter) roundRobin(me *thread, cands []*thread) int {
+	best, bestKey := 0, 1<<30
+	for k, t := range cands {
+		key := t.id - me.id
+		if key <= 0 {
+			key += 1 << 20
+		}
+		if key < bestKey {
+			best, bestKey = k, key
+		}
+	}
+	return best
 }
